@@ -578,6 +578,53 @@ def eval_element(case):
     return {'v': v, 'nt': tuple(case), 'out': 'ok'}
 
 
+def eval_type_alias(case):
+    """the type of a live element written through each spelling (set_property, set_properties, the attribute) on a handle that
+    has been looked at before, then read back through every spelling, on that handle and on a fresh one: either the write
+    was refused and everything reads the old type, or everything reads the new one"""
+    kind, ti, how = case
+    v = []
+    t = live()
+    h = element(t, kind)
+    new = TYPES[kind][ti]
+    ctx = f'[{kind}.type := {new!r} through {how}]'
+    try:
+        old = h.type            # a first look through the alias
+        _ = h.get_property('type')
+    except Exception as ex:
+        return {'v': [(f'type-alias/first-read-raises/{kind}', f'{type(ex).__name__}: {ex} {ctx}')], 'nt': None, 'out': 'raise'}
+    try:
+        if how == 'set_property':
+            h.set_property('type', new)
+        elif how == 'set_properties':
+            h.set_properties(type=new)
+        else:
+            h.type = new
+        done = True
+    except Exception:
+        done = False
+    want = new if done else old
+    reads = {}
+
+    def fresh():
+        # (a node that has become a facility is listed among the facilities)
+        if kind == 'node' and 'n1' not in t.nodes:
+            return t.facilities['n1']
+        return element(t, kind)
+    for tag, fn in (('handle.type', lambda: h.type), ('handle.get_property', lambda: h.get_property('type')),
+                    ('handle.get_sliver', lambda: h.get_sliver().get_type()),
+                    ('fresh.type', lambda: fresh().type), ('fresh.get_property', lambda: fresh().get_property('type'))):
+        try:
+            reads[tag] = fn()
+        except Exception as ex:
+            reads[tag] = f'raises {type(ex).__name__}'
+    bad = {k: r for k, r in reads.items() if r is not want}
+    if bad:
+        v.append((f'type-alias/{"stale" if done else "changed-by-refused-write"}/{kind}/{how}/' + '+'.join(sorted(bad)),
+                  f'{"accepted" if done else "refused"}; expected {want!r} everywhere, got {bad} {ctx}'))
+    return {'v': v, 'nt': tuple(case), 'out': f'{kind}:{"set" if done else "refused"}'}
+
+
 def _elem_set(e, kind, p, val):
     if kind == 'node' and p == 'image_ref':
         e.set_properties(image_ref=val, image_type='qcow2')
@@ -655,7 +702,7 @@ def eval_identity(case):
     return {'v': v, 'nt': tuple(case), 'out': 'identity'}
 
 
-REPLAY = {'after-another-class': eval_after_other, 'flat': eval_flat, 'shapes': eval_shape, 'elements': eval_element, 'element-pairs': eval_element_pair, 'identity': eval_identity}
+REPLAY = {'type-alias': eval_type_alias, 'after-another-class': eval_after_other, 'flat': eval_flat, 'shapes': eval_shape, 'elements': eval_element, 'element-pairs': eval_element_pair, 'identity': eval_identity}
 
 
 def run(report):
@@ -722,6 +769,13 @@ def run(report):
                   rule='every element kind x every ORDERED pair of distinct settable properties (quick: one value each, thorough: all '
                        'value combinations): set p, set q, read both back from fresh handles; unset p: p reads absent and q still reads '
                        'what was set')
+    explore_cases(report, 'type-alias', eval_type_alias,
+                  [(k, ti, how) for k in ELEMENTS for ti in range(len(TYPES[k])) for how in ('set_property', 'set_properties', 'attribute')],
+                  chunk=8,
+                  rule='every element kind of a live topology x every member of its type vocabulary x three spellings of the write '
+                       '(set_property, set_properties, attribute) on a handle that was read before; read back through the attribute, '
+                       'get_property and get_sliver on that handle and through a fresh handle: all agree on the new type, or - when '
+                       'the write is refused - on the old one')
     explore_cases(report, 'after-another-class', eval_after_other,
                   [(k1, k2, ti2) for k1 in KINDS for k2 in KINDS if k1 != k2 for ti2 in range(len(TYPES[k2]))], chunk=8,
                   rule='every ordered pair of sliver classes x every type member of the second: the first class goes through all '
